@@ -80,11 +80,14 @@ class Emitter:
         self.defs = []
 
 
+CFG_MONITORS = {'C10_mon'}
+
+
 def emit_sys(traces, out, monitors):
     """traces: list of dicts from `verifh sys`.  monitors: list of Coq function names of type
     list (directive * list obs) -> bool evaluated on the implementation's observations."""
     em = Emitter()
-    out.write('From RV Require Import Sys Replay Mon MonC09 MonC01 MonC05 MonC04 MonC07 MonC08 MonC03 MonC14.\n')
+    out.write('From RV Require Import Sys Replay Mon MonC09 MonC01 MonC05 MonC04 MonC07 MonC08 MonC03 MonC14 MonC10.\n')
     names = []
     for k, tr in enumerate(traces):
         cfg = tr['cfg']
@@ -105,7 +108,7 @@ def emit_sys(traces, out, monitors):
     out.write('Definition MISMATCHES := Eval vm_compute in mismatches all_traces.\n')
     out.write('Print MISMATCHES.\n')
     for m in monitors:
-        out.write('Definition FAIL_%s := Eval vm_compute in failing %s all_traces.\n' % (m, m))
+        out.write('Definition FAIL_%s := Eval vm_compute in %s %s all_traces.\n' % (m, 'failing_cfg' if m in CFG_MONITORS else 'failing', m))
         out.write('Print FAIL_%s.\n' % m)
     out.write('Definition NONTRIVIAL := Eval vm_compute in map (fun x => nontrivial (snd x)) all_traces.\n')
     out.write('Print NONTRIVIAL.\n')
@@ -113,7 +116,7 @@ def emit_sys(traces, out, monitors):
 
 def emit_store(traces, out):
     em = Emitter()
-    out.write('From RV Require Import Sys Replay Mon MonC09 MonC01 MonC05 MonC04 MonC07 MonC08 MonC03 MonC14.\n')
+    out.write('From RV Require Import Sys Replay Mon MonC09 MonC01 MonC05 MonC04 MonC07 MonC08 MonC03 MonC14 MonC10.\n')
     names = []
     for k, tr in enumerate(traces):
         evs = []
